@@ -109,6 +109,9 @@ pub fn evaluate(cfg: &Cfg, out: &RunOut, truth: Option<&Truth>, stable_path: boo
             if let SendO::Fatal(k) = o { if first_fatal.is_none() { first_fatal = Some(k.tok().to_string()); } }
             if *o == SendO::InUse && cfg.proto != Protocol::Tcp && first_fatal.is_none() { first_fatal = Some("inuse".to_string()); }
         }
+        if cfg.proto == Protocol::Tcp && it.sends.last() == Some(&SendO::InUse) && !(ii + 1 == n_iters && out.result == "err:cap") {
+            fail("C09", format!("iteration {ii}: address-in-use was not followed by a re-issued probe (nor by a capacity error)"));
+        }
         if first_fatal.is_some() { break; }
         // ---- the delivery of this iteration
         match &it.recv {
